@@ -4,6 +4,7 @@ package c08
 import (
 	"encoding/json"
 	"fmt"
+	"sync"
 	"testing"
 
 	"github.com/elliotchance/gedcom/v39"
@@ -395,6 +396,41 @@ func checkHistory(c histCase) (fl *harness.Failure, edited int) {
 			fl = harness.Failf("panic", "panic: %v", p)
 		}
 	}()
+	// several callers at once on trees nobody has read yet (every DATE still unparsed): each
+	// gets the diff a single caller gets on trees of the same content
+	{
+		_, l1, _ := gen.BuildTree(c.Left.Clone())
+		_, r1, _ := gen.BuildTree(c.Right.Clone())
+		single := gedcom.CompareNodes(l1, r1)
+		want := fmt.Sprintf("%s\ndeep-equal=%v", single.String(), single.IsDeepEqual())
+		_, l0, _ := gen.BuildTree(c.Left.Clone())
+		_, r0, _ := gen.BuildTree(c.Right.Clone())
+		const callers = 8
+		outs := make([]string, callers)
+		start := make(chan struct{})
+		var wg sync.WaitGroup
+		for k := 0; k < callers; k++ {
+			wg.Add(1)
+			go func(k int) {
+				defer wg.Done()
+				defer func() {
+					if p := recover(); p != nil {
+						outs[k] = fmt.Sprintf("panic: %v", p)
+					}
+				}()
+				<-start
+				d := gedcom.CompareNodes(l0, r0)
+				outs[k] = fmt.Sprintf("%s\ndeep-equal=%v", d.String(), d.IsDeepEqual())
+			}(k)
+		}
+		close(start)
+		wg.Wait()
+		for k := range outs {
+			if outs[k] != want {
+				return harness.Failf("parallel-diff-differs", "%d callers compare the same two freshly built trees at the same time; caller %d gets\n%s\na single caller gets\n%s\nleft:\n%sright:\n%s", callers, k, outs[k], want, tu.Text(l1), tu.Text(r1)), 0
+			}
+		}
+	}
 	_, l, _ := gen.BuildTree(c.Left)
 	_, r, _ := gen.BuildTree(c.Right)
 	warmUp(l, r, c.Warm)
